@@ -40,10 +40,13 @@ func scenario(name string, p params, q, t vrt.Bounds) *vrt.Scenario {
 	var keys map[string]string
 	var published [][]string // per producer, in publication order
 	var closed bool
+	var atClose int
 	producersDone := 0
 	body := func() {
 		batches, keys, published, closed, producersDone = nil, map[string]string{}, make([][]string, p.producers), false, 0
+		handed := 0
 		w := event.NewKafkaWriterForVerif(func(ms []kafka.Message) {
+			handed += len(ms) // the broker's write function has been called with them
 			var b []string
 			for _, m := range ms {
 				id, key := decode(m)
@@ -81,11 +84,21 @@ func scenario(name string, p params, q, t vrt.Bounds) *vrt.Scenario {
 		wg.Wait()
 		w.Close()
 		closed = true
+		// "every event accepted before shutdown is handed to the broker before shutdown completes":
+		// what the broker holds at the instant Close() returns
+		atClose = handed
 		vrt.Logf("closed")
 	}
 	check := func(x *vrt.Exec) (out []vrt.Violation) {
 		if !closed {
 			return nil // deadlock is reported by the engine under the deadlock clause
+		}
+		nPub := 0
+		for _, p := range published {
+			nPub += len(p)
+		}
+		if atClose < nPub {
+			out = append(out, vrt.Violation{Clause: "handed-to-the-broker-only-after-shutdown-completed", Detail: fmt.Sprintf("%d events were accepted before Close(), the broker held %d of them when Close() returned; batches at the end=%v", nPub, atClose, batches)})
 		}
 		var flat []string
 		for _, b := range batches {
